@@ -20,14 +20,20 @@ class RuleResult:
         self.floor = None         # (measured, required)
         self.nontrivial = 0
         self.errors = []          # checker breakages (fail closed)
+        self.floors = []
 
     def ob(self, ok=True, n=1):
         self.obligations += n
         if ok:
             self.discharged += n
 
-    def require_floor(self, measured, required, what):
+    def require_floor(self, measured, facts, key, what):
+        """Fail closed when a rule matched fewer instances than counted on the pinned tree."""
+        import floors
+        required = floors.get(facts, key)
+        floors.MEASURED[(facts.config, key)] = measured
         self.floor = (measured, required, what)
+        self.floors.append({"key": key, "measured": measured, "required": required, "what": what})
         if measured < required:
             self.errors.append("floor: %s: measured %d < required %d (rule matched too few instances: "
                                "anchor moved or analysis lost coverage)" % (what, measured, required))
@@ -129,7 +135,7 @@ def finish(prop, tier, results, t0, level_note_assumptions, seed=0):
                     "with at least one field/impl to inspect; distinct by (rule, function, instance key)",
             "samples": samples[:24],
             "rules": [{"rule": r.rule, "obligations": r.obligations, "discharged": r.discharged,
-                       "floor": r.floor, "info": r.info} for r in results],
+                       "floors": r.floors, "info": r.info} for r in results],
             "known_findings_hit": [v.key for v in known_hit],
             "exhaustive": False,
         },
